@@ -222,6 +222,8 @@ pub struct Hk {
     pub fault_in_event: bool,
     pub pe_calls: u32,
     pub c08_cells: BTreeMap<String, u64>,
+    /// fds whose registration call was made to fail (attributed to their owner afterwards)
+    pub faulted_fds: Vec<i32>,
 }
 
 pub struct Sim {
@@ -369,7 +371,7 @@ impl calloop::verif::Sim for Sim {
         crate::engine::batch_hook(self, events, n_fd);
     }
 
-    fn fault(&self, site: FaultSite, _fd: i32) -> io::Result<()> {
+    fn fault(&self, site: FaultSite, fd: i32) -> io::Result<()> {
         let mut hk = self.hk.borrow_mut();
         let s = match site {
             FaultSite::Register => 1,
@@ -389,6 +391,7 @@ impl calloop::verif::Sim for Sim {
         }
         if let Some(errno) = hit {
             hk.faults_fired.push((s as u8, errno));
+            hk.faulted_fds.push(fd);
             hk.fault_window = true;
             if hk.in_dispatch {
                 hk.expected_err = true;
